@@ -202,6 +202,10 @@ impl Length {
 }
 pub open spec fn pt(p: (R32, R32)) -> (real, real) { (val(p.0), val(p.1)) }
 pub open spec fn vertical_dir(d: Direction) -> bool { d is Up || d is Down }
+/// the absolute offset a U-shaped (same side) corner connector steps out by
+pub open spec fn u_offset(given: Option<Length>, dflt: Length) -> Option<real> {
+    match (match given { Some(l) => l, None => dflt }) { Length::Absolute(a) => Some(val(a)), _ => None }
+}
 /// consecutive points share a coordinate: every segment is axis-parallel
 pub open spec fn rectilinear(ps: Seq<(R32, R32)>) -> bool {
     forall|i: int| 0 <= i < ps.len() - 1 ==> val((#[trigger] ps[i]).0) == val(ps[i + 1].0) || val(ps[i].1) == val(ps[i + 1].1)
@@ -282,6 +286,13 @@ impl Connector {
 //@ - r is Ok ==> ({ let n = r->Ok_0@.len() as int;
 //@       (vertical_dir(end_dir_some) ==> val(r->Ok_0@[n - 1].0) == val(r->Ok_0@[n - 2].0))
 //@       && (!vertical_dir(end_dir_some) ==> val(r->Ok_0@[n - 1].1) == val(r->Ok_0@[n - 2].1)) })     @@C13.corner.enters_perpendicular
+//@ - r is Ok && start_dir_some == end_dir_some && u_offset(self.offset, default_abs_offset) is Some && u_offset(self.offset, default_abs_offset)->Some_0 >= 0real ==> ({
+//@       let p = r->Ok_0@; p.len() == 4 && (match start_dir_some {
+//@           Direction::Right => val(p[1].0) >= val(x1) && val(p[1].0) >= val(x2) && val(p[2].0) == val(p[1].0),
+//@           Direction::Left => val(p[1].0) <= val(x1) && val(p[1].0) <= val(x2) && val(p[2].0) == val(p[1].0),
+//@           Direction::Down => val(p[1].1) >= val(y1) && val(p[1].1) >= val(y2) && val(p[2].1) == val(p[1].1),
+//@           Direction::Up => val(p[1].1) <= val(y1) && val(p[1].1) <= val(y2) && val(p[2].1) == val(p[1].1),
+//@       }) })     @@C13.corner.u_outward
 //@end
 
 // the midpoint of the overlap for horizontal / vertical connectors: the boxes are the SAME boxes
